@@ -68,9 +68,12 @@ def run(rep: core.Report):
     r0 = core.resolve_name(gs, rets_[-1]) if rets_ else None
     sig_name = r0.elts[0].id if isinstance(r0, ast.Tuple) and r0.elts and isinstance(r0.elts[0], ast.Name) else None
     arms = [st for st in gs.body if isinstance(st, ast.If) and "_dist_func" in core.src(st.test) and "classical" in core.src(st.test)]
-    if sig_name is None or len(arms) != 1 or not isinstance(arms[0].test, ast.Compare) or not isinstance(arms[0].test.ops[0], (ast.Eq, ast.NotEq)):
+    test_, neg_ = (arms[0].test, False) if arms else (None, False)
+    while isinstance(test_, ast.UnaryOp) and isinstance(test_.op, ast.Not):
+        test_, neg_ = test_.operand, not neg_
+    if sig_name is None or len(arms) != 1 or not isinstance(test_, ast.Compare) or not isinstance(test_.ops[0], (ast.Eq, ast.NotEq)):
         raise AnalysisError("RandomDisplacements._get_sigma: sigma expressions vanished (no returned amplitude / no test on the distribution function)")
-    is_eq = isinstance(arms[0].test.ops[0], ast.Eq)
+    is_eq = isinstance(test_.ops[0], ast.Eq) != neg_
     fpar = gs.args.args[2].arg if len(gs.args.args) > 2 else "T"
     for key, arm in (("classical", arms[0].body if is_eq else arms[0].orelse), ("quantum", arms[0].orelse if is_eq else arms[0].body)):
         tr3 = symalg.PyTranslator({fpar: T, "freqs": F}, attr_hook=lambda t: uc.get(t), call_hook=lambda node, tr_, env_: N_ if core.src(node.func) == "bose_einstein_dist" else None, where="_get_sigma")
@@ -230,7 +233,7 @@ def _r19g(rep):
     M = "ThermalDisplacementMatrices"
     S = [
         (f"{T}.run", "assign", "vecs2", "(abs(vecs) ** 2).T / masses", "the squared eigenvector components are not divided by the masses"),
-        (f"{T}.run", "assign", "p_vecs", "np.dot(vecs.T.reshape(-1, 3), self._projection_direction).reshape(-1, len(masses))", "the projection of the eigenvectors on the direction is not e . n per atom"),
+        (f"{T}.run", "assign", "vecs2", "np.abs(np.dot(vecs.T.reshape(-1, 3), self._projection_direction).reshape(-1, len(masses))) ** 2 / masses", "the projected squared eigenvector components are not |e . n|^2 per atom divided by the masses"),
         (f"{T}.run", "assign", "self._displacements", "disps / (count + 1)", "the sum over q-points is not divided by the number of q-points"),
         (f"{T}.run", "aug", "disps", "np.outer(self._get_Q2(f, temps), v2)", "the mode contribution is not Q2(f, T) |e|^2 / m"),
         (f"{T}.run", "aug", "disps[0]", "np.dot(Q2, vecs2[valid_indices])", "the single-temperature contribution is not sum over modes of Q2 |e|^2 / m"),
@@ -279,7 +282,7 @@ def _r19f(rep):
         (f"{R}._C_to_D", "rawassign", "dm", "((V * (V.conj() * dm).T).T).real", "the D-type matrix is not Re(V^* D V) element-wise"),
         (f"{R}._prepare", "iter", "self._comm_points[self._ii]", "self._comm_points[self._ii] / float(N)", "the ii q-points are not integer points / N"),
         (f"{R}._prepare", "iter", "self._comm_points[self._ij]", "self._comm_points[self._ij] / float(N)", "the ij q-points are not integer points / N"),
-        (f"{R}.frequencies", "assign", "freqs", "np.sqrt(np.abs(eigvals)) * np.sign(eigvals) * self._factor", "frequencies are not sign(e) sqrt|e| factor"),
+        (f"{R}.frequencies", "ret", None, "np.array(np.sqrt(np.abs(eigvals)) * np.sign(eigvals) * self._factor, dtype='double', order='C')", "frequencies are not sign(e) sqrt|e| factor"),
     ]
     for qn, kind, target, text, msg in S:
         sites.check(rep, "R19f", RD, qn, "assign" if kind == "rawassign" else kind, target, text, msg + ": the sampled displacements do not have the harmonic canonical covariance", arg0=(target in ("u", "self._u")), raw=(kind == "rawassign"))
